@@ -851,3 +851,23 @@ ref("subst-comment-and-log", ["C10", "C11", "C12", "C13", "C14", "C15", "C16", "
     match parsers::locust::parse_lines(lines) {''', '''    log!("run_lines: {} bytes", lines.len());
     let mut cr_list = Vec::new();
     match parsers::locust::parse_lines(lines) {'''))
+
+ref("extract-close-helper", ["C02", "C08"], "the two child-side closes after dup2 moved into a helper function",
+    (C, '''            if idx_cmd < pipes_count {
+                let fds = pipes[idx_cmd];
+                libs::dup2(fds.1, 1);
+                libs::close(fds.1);
+                libs::close(fds.0);
+            }
+''', '''            if idx_cmd < pipes_count {
+                let fds = pipes[idx_cmd];
+                libs::dup2(fds.1, 1);
+                close_pair(fds);
+            }
+'''),
+    (C, '''fn try_run_builtin_in_subprocess(''', '''fn close_pair(fds: (RawFd, RawFd)) {
+    libs::close(fds.1);
+    libs::close(fds.0);
+}
+
+fn try_run_builtin_in_subprocess('''))
